@@ -790,3 +790,27 @@ def run(idx, rep, tier):
     _c20r4(k)
     for o in rep.obligations[_before:]:
         o.rule = 'C09.R8'
+    rep.rule('C09.R9', 'what SSHConnection.wait_closed awaits, the cleanup '
+             'closes: SSHClientConnection._cleanup closes the ssh-agent '
+             'client on every path where one is open (wait_closed awaits '
+             'agent.wait_closed() first; an agent left open after a failed '
+             'or lost authentication makes connect() hang in its own '
+             'clean-up instead of raising)')
+    _wc = k.func(CONN + 'wait_closed')
+    _aw = [c for c in ast.walk(_wc.node) if is_call(c, 'wait_closed',
+                                                    'self._agent')]
+    rep.floor('C09.R9', 'agent wait in wait_closed', len(_aw), 1)
+    _cl = k.func('connection.SSHClientConnection._cleanup')
+    _g = k.cfg(_cl)
+    _closes = [n.id for n, c in k.calls_named(_cl, 'close', 'self._agent')]
+    _w = _g.guarded_by(_g.exit, lambda x: False if x.kind == 'atom' and
+                       dotted(x.ast) == 'self._agent' else None,
+                       extra_blocked=_closes)
+    rep.check(bool(_closes) and _w is None, 'C09.R9',
+              key(_cl, 'agent closed with the connection'),
+              'self._agent.close() unless there is no agent',
+              'the client cleanup leaves the ssh-agent connection open: '
+              'wait_closed() then waits for agent.wait_closed() for ever - '
+              'connect() to a server that rejects every agent key hangs '
+              'instead of raising PermissionDenied', _cl.loc(_cl.node),
+              _g.describe_path(_w) if _w else None)
